@@ -21,7 +21,7 @@ from . import c07 as C07
 from . import c18 as C18
 
 PROP = "C08"
-RULE = ("random ADMGs with 2-5 nodes x pairs (outcome conjunction, non-empty condition conjunction) with disjoint keys drawn "
+RULE = ("(12%: structured 'bichain' inputs -- 3-4 nodes on a chain of bidirected edges, one outcome, two conditions) random ADMGs with 2-5 nodes x pairs (outcome conjunction, non-empty condition conjunction) with disjoint keys drawn "
         "from <=2 counterfactual worlds plus the factual world (shared/distinct subscripts, x / x' values, "
         "self-interventions); the examples of test_idc_star / Shpitser-Pearl / Tikka and all past witnesses first; a "
         "stream of impossible conditions (violating effectiveness). Every case is run under every order of the worlds and "
@@ -86,12 +86,43 @@ CORPUS = [
 ]
 
 
+def _gen_bichain(rng: random.Random):
+    """structured: 3-4 nodes joined by a CHAIN of bidirected edges (plus a few directed edges), one outcome and TWO
+    conditions, factual or in one shared world, unstarred values mostly -- the rule-2 test then has to look at ancestors of
+    a condition that are not ancestors of the outcome (colliders / latent chains through the other condition)"""
+    n = rng.choice([3, 3, 4])
+    nodes = list(range(n))
+    rng.shuffle(nodes)
+    bi = [[nodes[i], nodes[i + 1]] for i in range(n - 1) if rng.random() < 0.85]
+    di = []
+    for i in range(n):
+        for j in range(i + 1, n):
+            if rng.random() < 0.3:
+                di.append([nodes[i], nodes[j]])     # acyclic: along the shuffled order
+    g = {"nodes": sorted(nodes), "di": di, "bi": bi}
+    pick = rng.sample(nodes, 3)
+    w = ()
+    if n == 4 and rng.random() < 0.4:
+        x = [v_ for v_ in nodes if v_ not in pick][0]
+        w = ((x, "m"),)
+    val = lambda: "m" if rng.random() < 0.8 else "p"    # noqa: E731
+    outs = [[K.mkvar(pick[0], w if rng.random() < 0.7 else ()), val()]]
+    conds = [[K.mkvar(pick[1], w if rng.random() < 0.7 else ()), val()],
+             [K.mkvar(pick[2], w if rng.random() < 0.7 else ()), val()]]
+    rng.shuffle(conds)
+    return g, outs, conds
+
+
 def cases(rng: random.Random, tier: str):
     out = [dict(c, seed=3000 + i) for i, c in enumerate(CORPUS)]
     out += K.load_corpus("C08")
     n = 1200 if tier == "quick" else 8000
     while len(out) < n + len(CORPUS):
         big = rng.random() < (0.12 if tier == "quick" else 0.3)
+        if rng.random() < 0.12:
+            g, outs, conds = _gen_bichain(rng)
+            out.append({"g": g, "outcomes": outs, "conditions": conds, "seed": rng.randrange(1 << 30), "gen": "bichain"})
+            continue
         g = K.rand_admg(rng, 2, 5 if big else 4)
         pr = K.rand_event_pair(rng, g, max_worlds=2)
         if pr is None:
@@ -137,8 +168,17 @@ def _run_real(case, strategy, record=None):
     try:
         with K.fixed_orders_idc(strategy):
             if record is not None:
-                record.update({"id_star": [], "levels": [], "reassoc": []})
+                record.update({"id_star": [], "levels": [], "reassoc": [], "rule2": []})
                 orig_new = idc.get_new_outcomes_and_conditions
+                orig_r2 = idc.cf_rule_2_of_do_calculus_applies
+
+                def rec_r2(cf_graph, outcomes, condition):
+                    outcomes = list(outcomes)
+                    r = orig_r2(cf_graph, outcomes, condition)
+                    record["rule2"].append({"level": len(record["levels"]) - 1, "cf": K.enc_nx_cf_graph(cf_graph),
+                                            "outcomes": [E.enc_var(o) for o in outcomes],
+                                            "condition": E.enc_var(condition), "result": bool(r)})
+                    return r
 
                 def rec_id(g, event, **kw):
                     try:
@@ -158,10 +198,12 @@ def _run_real(case, strategy, record=None):
                     record["reassoc"].append((dict(r[0]), dict(r[1])))
                     return r
                 idc.id_star, idc.idc_star, idc.get_new_outcomes_and_conditions = rec_id, rec_idc, rec_new
+                idc.cf_rule_2_of_do_calculus_applies = rec_r2
                 try:
                     est = rec_idc(graph, K.dec_event(case["outcomes"]), K.dec_event(case["conditions"]))
                 finally:
                     idc.get_new_outcomes_and_conditions = orig_new
+                    idc.cf_rule_2_of_do_calculus_applies = orig_r2
             else:
                 est = orig_idc(graph, K.dec_event(case["outcomes"]), K.dec_event(case["conditions"]))
     except Unidentifiable:
@@ -215,11 +257,42 @@ def _union(o, c):
     return list(seen.values())
 
 
+def _documented_rule2(call):
+    """The rule-2 test AS DOCUMENTED in idc_star.py, recomputed independently of the code (path-enumeration d-separation
+    of oracles/sep_paths.py): every outcome is d-separated from the condition in the counterfactual graph without the
+    edges leaving the condition, given the self-intervened nodes other than the two tested ones.  None = out of scope."""
+    from ..oracles import sep_paths as SP
+
+    _, nodes, di, bi = call["cf"]
+    key = lambda v_: json.dumps(K.canon_var(v_))    # noqa: E731
+    idx = {key(n): i for i, n in enumerate(nodes)}
+    c = idx.get(key(call["condition"]))
+    outs = [idx.get(key(o)) for o in call["outcomes"]]
+    if c is None or any(o is None for o in outs):
+        return None
+    g = {"nodes": list(range(len(nodes))), "di": [[idx[key(u)], idx[key(w)]] for u, w in di if idx[key(u)] != c],
+         "bi": [[idx[key(u)], idx[key(w)]] for u, w in bi]}
+    blocked = {i for i, n in enumerate(nodes) if any(int(a) == int(n[1]) for a, _ in n[4])}
+    try:
+        return all(o != c and SP.d_separated(g, o, c, sorted(blocked - {o, c})) for o in outs)
+    except SP.OracleDisagreement:
+        return None
+
+
+def _exchange_justified(rec, level):
+    """was the exchange made at `level` licensed by the documented rule-2 test?  (True / False / None = unknown)"""
+    calls = [c for c in rec.get("rule2", []) if c["level"] == level and c["result"]]
+    if not calls:
+        return None
+    return _documented_rule2(calls[-1])
+
+
 def _exchange_kind(g, before, after, seed, n_models):
     """Why is the exchange step  P(out | cond) -> P(out' | cond minus {c})  broken?  Decided by exact evaluation of variants:
     'exchange:polarity'   it would be right had the new subscript the other star (the value of the condition was lost),
     'exchange:conditions' it would be right had the remaining conditions received the new subscript as well,
-    'exchange:separation' neither (the condition should not have been exchanged: the d-separation test is insufficient)."""
+    'exchange:separation' neither (the condition should not have been exchanged: the d-separation test is insufficient).
+    (Only reached when the exchange IS licensed by the documented rule-2 test, see _exchange_justified.)"""
     (o1, c1), (o2, c2) = before, after
     k2 = {C.enc(var) for var, _ in c2}
     gone = [[var, val] for var, val in c1 if C.enc(var) not in k2]
@@ -265,6 +338,11 @@ def _explain(case, strategy, n_models):
                 return "reassociation", {"level": i, "before": lv, "after": reassoc[i]}
             if i + 1 < len(levels) and in_dom(reassoc[i]) and in_dom(levels[i + 1]) and \
                     _ratio_differs(g, reassoc[i], levels[i + 1], seed, n_models):
+                if _exchange_justified(rec, i) is False:
+                    # the known exchange findings are about the DOCUMENTED test being too weak; an exchange that the
+                    # documented test (recomputed independently) does not license is a different, unlisted defect
+                    return "exchange:not-licensed-by-documented-test", \
+                        {"level": i, "before": reassoc[i], "after": levels[i + 1]}
                 return _exchange_kind(g, reassoc[i], levels[i + 1], seed, n_models), \
                     {"level": i, "before": reassoc[i], "after": levels[i + 1]}
     calls = [c for c in rec.get("id_star", []) if "_number_recursions" in c[1]]
@@ -497,7 +575,7 @@ def run_python(case):
             "single_world_leaves": all(C07.single_world(x[1]) for x in by_order if x[0] == "ok"),
             "condition_certainly_impossible": certainly_impossible(case["conditions"]),
             # task "hash seed": when the answer depends on the iteration order of a Python set, are all answers right?
-            "order_dependent_verdict": r["order_verdict"]}
+            "order_dependent_verdict": r["order_verdict"], "gen": case.get("gen", "random")}
     nontrivial = r["in_domain"] and K.n_worlds(jt) >= 1 and bool(case["g"]["di"] or case["g"]["bi"]) and \
         shape in ("P", "sum", "prod", "frac", "unidentifiable", "zero")
     out = {"out": ["orders", by_order], "fail": r["fail"], "nontrivial": bool(nontrivial), "tags": tags}
